@@ -80,6 +80,7 @@ type Event struct {
 type Config struct {
 	Tape      []int    // scheduling choices; 0 (or exhausted) = default
 	MaxSteps  int      // step cap per Run (livelock bound); 0 = 200000
+	CycleTape bool     // when the tape is used up start over from its beginning instead of answering 0 for ever
 	PoolMode  int      // see Pool
 	MapSeed   uint64   // 0 = sorted map iteration, else seeded permutation
 	Starve    []string // task-name prefixes only scheduled when nothing else is runnable
@@ -516,6 +517,9 @@ func (s *Sim) nextChoice() int {
 		return v
 	}
 	s.pos++
+	if s.cfg.CycleTape && len(s.cfg.Tape) > 0 {
+		return s.cfg.Tape[(s.pos-1)%len(s.cfg.Tape)] // contention presets: the choices never run dry
+	}
 	return 0
 }
 
